@@ -915,7 +915,9 @@ def _exactly_comparable(v):
     if v.dtype.kind != "f":
         return False
     with np.errstate(all="ignore"):
-        return bool(np.isfinite(v).all() and np.all(v == np.round(v)))
+        # floats: integer-valued AND pairwise distinct - equal floats (var of a constant lane: 650.0 everywhere)
+        # are ties for NumPy but need not be bitwise equal after a chunked/tree evaluation
+        return bool(np.isfinite(v).all() and np.all(v == np.round(v)) and np.unique(v).size == v.size)
 
 
 def _red(name):
@@ -1068,6 +1070,38 @@ class _MapBlocks:
         from vf import funcs
 
         return a[0].map_blocks(getattr(funcs, s["fn"]), dtype=a[0].dtype)
+
+
+@op("map_blocks_kw", "map_blocks", exact=False)
+class _MapBlocksKw:
+    """A whole dask array (any variable: a source, a fused chain, a reduction) handed to every block call as a
+    keyword argument of map_blocks."""
+
+    @staticmethod
+    def gen(D_, vals):
+        i = _pick(D_, vals, lambda v: v.dtype.kind in "iuf" and v.size > 0)
+        if i is None:
+            return None
+        cands = [j for j, w in enumerate(vals) if w.dtype.kind in "iuf" and 0 < w.size <= 64 and np.all(np.isfinite(w))]
+        if not cands:
+            return None
+        # prefer the newest variable as the keyword operand: a computed chain rather than a source
+        j = cands[-1] if D_.chance(1, 2) else D_.choice(cands)
+        return {"op": "map_blocks_kw", "args": [i, j]}
+
+    @staticmethod
+    def np(s, a):
+        from vf import funcs
+
+        return funcs.plus_total(a[0], m=a[1])
+
+    @staticmethod
+    def da(s, a):
+        import dask_array as da
+
+        from vf import funcs
+
+        return da.map_blocks(funcs.plus_total, a[0], m=a[1], dtype="f8")
 
 
 @op("matmul", "linalg")
@@ -1375,6 +1409,9 @@ FOLLOWUPS = {
     "map_blocks": ["getitem", "rechunk"],
     "add": ["getitem", "rechunk", "take"],
     "where": ["getitem", "rechunk", "take"],
+    "mul_s": ["map_blocks_kw", "getitem", "neg"],
+    "add_s": ["map_blocks_kw", "getitem", "mul_s"],
+    "neg": ["map_blocks_kw", "add_s"],
 }
 
 
